@@ -1,9 +1,10 @@
 #!/bin/sh
 # One-off build after a fresh restore (offline): Coq development (full .vo build) + extracted model driver.
 set -e
-cd /verif/coq
+ROOT="$(cd "$(dirname "$0")/.." && pwd)"
+cd "$ROOT/coq"
 coq_makefile -f _CoqProject -o Makefile > /dev/null
 timeout 3000 make -j16
-sh /verif/ocaml/build.sh
-mkdir -p /verif/evidence /verif/replays /verif/.scratch
+sh "$ROOT/ocaml/build.sh"
+mkdir -p "$ROOT/evidence" "$ROOT/replays" "$ROOT/.scratch"
 echo "setup ok"
